@@ -503,6 +503,14 @@ def gen_table(tb):
                         c = cell_case(ty, syn, sec, bits, vis[0], vis[2], abbr=vis[1], kind='cell-visible')
                         c['class'] = cls
                         cases.append(c)
+                        if ty == 'markup' and sec == 'variables' and cls == 'known' and syn in ('html', 'xml', 'pug'):
+                            # the variable is used inside a SNIPPET BODY (parsed with the Config as parameter table) while the
+                            # call's own config carries a `variables` table that defines only another variable
+                            c = cell_case(ty, syn, sec, bits, vis[0], vis[2], abbr='zzs', kind='cell-visible-in-snippet')
+                            c['user'].setdefault('variables', {})['zzother'] = 'OTHER'
+                            c['user'].setdefault('snippets', {})['zzs'] = 'p[title=${%s}]{${%s}}' % (vis[0], vis[0])
+                            c['class'] = cls
+                            cases.append(c)
                         if ty == 'markup' and syn == DEFAULT_SYNTAX_OF_MARKUP and not bits[5]:
                             # the call's own config defines nothing at all (`expand(abbr, {}, global)`):
                             # type and syntax are the documented defaults, every global layer still applies
